@@ -1,6 +1,8 @@
 #!/bin/bash
 # runs every kept seed against the quick check of its property on a scratch copy of /repo (VERIF_REPO), never on /repo itself
 wt=/tmp/seedmatrix; out=/tmp/seedmatrix_out; rm -rf $out; mkdir -p $out
+# the checks run from a snapshot of /verif, so that harnesses can be edited while a matrix is running
+snap=/tmp/verif_snap.$$; rm -rf $snap; mkdir -p $snap; cp -r /verif/harness /verif/checks.json /verif/known_findings.json /verif/bin $snap/; mkdir -p $snap/engine; cp /verif/engine/go.mod /verif/engine/go.sum $snap/engine/ 2>/dev/null
 git -C /repo worktree remove --force $wt 2>/dev/null; git -C /repo worktree prune
 git -C /repo worktree add --detach $wt HEAD >/dev/null 2>&1 || exit 2
 for d in /verif/seeded/*/; do
@@ -10,13 +12,14 @@ for d in /verif/seeded/*/; do
   git -C $wt checkout -q -- . ; git -C $wt clean -fdq
   if ! git -C $wt apply $d/patch.diff 2>/dev/null; then echo "$id $prop: patch does not apply"; continue; fi
   t0=$(date +%s)
-  VERIF_REPO=$wt VERIF_EVIDENCE_DIR=$out/ev timeout 1500 /verif/bin/symgo check $prop ${1:-quick} > $out/$id.log 2>&1; rc=$?
+  VERIF_REPO=$wt VERIF_EVIDENCE_DIR=$out/ev timeout 1500 $snap/bin/symgo check -verif $snap $prop ${1:-quick} > $out/$id.log 2>&1; rc=$?
   t1=$(date +%s)
   nv=$(grep -c '^VIOLATION' $out/$id.log); first=$(grep -A1 '^VIOLATION' $out/$id.log | sed -n 2p | cut -c1-120)
   echo "$id $prop: exit=$rc violations=$nv time=$((t1-t0))s $first"
   printf '%s\t%s\t%s\t%s\t%s\t%s\n' "$id" "$prop" "$rc" "$nv" "$((t1-t0))" "$first" >> $out/matrix.tsv
 done
 git -C /repo worktree remove --force $wt
+rm -rf $snap
 # merge into the kept table (one row per seed, latest run wins)
 python3 - $out/matrix.tsv /verif/seeded/MATRIX.tsv <<'PY'
 import sys,os
